@@ -80,6 +80,8 @@ def gen_profile(rng, base, spread=0.5):
          "g": [round(rng.choice([-1, 1]) * rng.uniform(0.15, 0.6), 3) for _ in range(3)]}
     if rng.random() < PY_PROFILES[0]:
         p["py"] = True
+        if rng.random() < 0.4:
+            p["cut"] = [rng.randrange(3), round(rng.uniform(-0.3, 0.3), 3), rng.choice([1, -1])]
     return p
 
 
@@ -212,6 +214,7 @@ def gen_laser_spectrum(rng):
 
 def gen_laser(rng, npl):
     return {"parent": rng.choice(["frame", "world"]), "transform": gen_transform(rng, toward_origin=True, dist=rng.uniform(1.2, 1.6)),
+            "rider": rng.choice([None, None, round(rng.uniform(0.8, 1.6), 3)]),
             "plasma": rng.randrange(npl), "importance": rng.choice([1.0, 1.0, 3.0]), "profile": gen_laser_profile(rng),
             "spectrum": gen_laser_spectrum(rng), "models": rng.choice([1, 1, 1, 0]), "integrator_step": rng.choice([0.02, 0.035, 0.05])}
 
@@ -459,6 +462,7 @@ class SimProfile:
     def __init__(self, p, scene):
         self.a = p["a"]
         self.g = p["g"]
+        self.cut = p.get("cut")          # [axis, position, +1|-1]: the profile is exactly zero on one side of a plane
         self.scene = scene
 
     def __call__(self, x, y, z):
@@ -473,6 +477,8 @@ class SimProfile:
                     raise SimInterrupt("injected interruption in profile call %d" % k)
                 raise SimFault("injected failure in profile call %d" % k)
         g = self.g
+        if self.cut is not None and (x, y, z)[self.cut[0]] * self.cut[2] > self.cut[1] * self.cut[2]:
+            return 0.0
         return self.a * math.exp(g[0] * x + g[1] * y + g[2] * z)
 
 
@@ -564,6 +570,7 @@ class Scene:
         self.laser = None
         self.pcounter = [0]
         self.pfault_at = {}
+        self.rider = None
 
 
 def build_scene(spec):
@@ -638,6 +645,10 @@ def build_laser(s, spec):
         l.laser_spectrum = laser_construct(ls["spectrum"]["kind"], ls["spectrum"]["spec"])
     l.laser_profile = laser_construct(ls["profile"]["kind"], ls["profile"]["spec"])
     l.importance = ls["importance"]
+    if ls.get("rider"):
+        from raysect.optical.material import UniformVolumeEmitter
+        from raysect.optical.library.spectra.colours import green
+        s.rider = Sphere(0.12, parent=l, transform=translate(0.35, 0.0, ls["rider"]), material=UniformVolumeEmitter(green, 0.02), name="rider")
     if ls["models"]:
         try:
             l.models = [SeldenMatobaThomsonSpectrum() for _ in range(ls["models"])]
@@ -770,7 +781,7 @@ class SceneMachine(Machine):
              "frame.transform", "p.recreate"]
         if spec["beams"]:
             k += ["b.set", "b.set", "b.element", "b.atomic_data", "b.plasma", "b.attenuator", "b.att.reassign", "b.att.step", "b.att.clamp_sigma",
-                  "b.models.set", "b.models.add", "b.models.clear", "b.models.readd", "b.models.set.bad", "b.models.permute", "b.reassign", "b.model.line", "b.integrator", "b.transform", "b.parent",
+                  "b.models.set", "b.models.add", "b.models.clear", "b.models.readd", "b.models.set.bad", "b.models.permute", "b.reassign", "b.caller.mutate", "b.model.line", "b.integrator", "b.transform", "b.parent",
                   "b.recreate", "b.reject"]
         if spec.get("laser"):
             k += ["l.profile.set", "l.profile.set", "l.profile.polarize", "l.profile", "l.spectrum", "l.spectrum.set", "l.plasma",
@@ -851,6 +862,10 @@ class SceneMachine(Machine):
             if kind == "l.profile.set":
                 attrs = [a for a in ls["profile"]["spec"] if a != "polarization"]
                 a = rng.choice(attrs)
+                sib = {"stddev_x": "stddev_y", "stddev_y": "stddev_x"}.get(a)
+                if sib in attrs and rng.random() < 0.5:
+                    op["attr"], op["value"] = a, ls["profile"]["spec"][sib]      # an elliptical profile made circular
+                    return op
                 fresh = gen_laser_profile(rng)
                 while a not in fresh["spec"]:
                     fresh = gen_laser_profile(rng)
@@ -972,6 +987,7 @@ class SceneMachine(Machine):
                             float(m.integrator.step) if is_lm else -1.0, float(seg.transform[2, 3]), float(seg.height), float(seg.radius),
                             1.0 if seg.parent is scene.laser else 0.0]
                 out.append(float(len(scene.laser.children)))
+                out.append(-1.0 if scene.rider is None else (1.0 if scene.rider.parent is scene.laser else 0.0))
                 return "ok", np.array(out, dtype=float)
             if not scene.beams:
                 return "ok", np.zeros(0)
@@ -1402,6 +1418,16 @@ class SceneMachine(Machine):
                 raise Violation("invalid-accepted", "beam.models", "a model list containing a str was accepted")
             if len(list(b.models)) != len(bs["models"]):
                 raise Violation("reject-changed-state", "beam.models", "a refused model list changed the attached models")
+            return "raised"
+        elif k == "b.caller.mutate":
+            lst = [mk_beam_model(m) for m in bs["models"]]
+            b.models = lst
+            lst.append(mk_beam_model({"cls": "BeamEmissionLine", "line": {"el": bs["element"], "ch": 0, "tr": [3, 2]}}))
+            if len(lst) > 1:
+                del lst[0]
+            # an unrelated assignment that rebuilds the beam material: it must be built from the beam's models, not the caller's list
+            b.sigma = b.sigma
+            env.probe("caller_container_mutated")
             return "raised"
         elif k == "b.reassign":
             w = op["what"]
